@@ -160,6 +160,14 @@ def runItems (W : World) (requested : Option (List (String × Sg))) (rec : RunRe
           | some env' => match requested with
             | some rq => callExec rq rec st g env'
             | none => rec st g env'
+      | .callArgs f args kwargs rtA rtK _ =>
+        match W.find f with
+        | none => (.error (.dds .objectNotFound), st)
+        | some g => match bindRun g.params (zipArgs results env args rtA) (zipKw results env kwargs rtK) 0 with
+          | none => (.error (.exc "TypeError" f), st)
+          | some env' => match requested with
+            | some rq => callExec rq rec st g env'
+            | none => rec st g env'
       | .keep path f args kwargs rtA rtK _ =>
         match W.find f with
         | none => (.error (.dds .objectNotFound), st)
@@ -323,6 +331,12 @@ def plainItems (W : World) (rec : PlainRec) (env : Env) :
                 | some p => { st' with kept := aset st'.kept p v }
                 | none => st')
             | r => r
+      | .callArgs f args kwargs rtA rtK _ =>
+        match W.find f with
+        | none => (.error (.dds .objectNotFound), st)
+        | some g => match bindRun g.params (zipArgs results env args rtA) (zipKw results env kwargs rtK) 0 with
+          | none => (.error (.exc "TypeError" f), st)
+          | some env' => rec st g env'
       | .keep path f args kwargs rtA rtK _ =>
         match W.find f with
         | none => (.error (.dds .objectNotFound), st)
